@@ -458,6 +458,7 @@ class MathAbs:
         self.atom_denoms = {}   # ('t'|'h', atomkey) -> {denom: pair}
         self.atom_range = {}    # atomkey -> (lo, hi) floats in units of radians
         self.sqrt_memo = {}
+        self.zero_facts = set()
         self.sqrt2h = None
         self.used = set()
 
@@ -588,6 +589,12 @@ class MathAbs:
                 term = z3.RealVal(str(const))
                 base = self._base_pair(kind, term, key, 1)
                 res = self._addf(kind, res, base)
+        if atoms:
+            # true fact, once per argument term: a vanishing argument has (cos,sin) = (1,0) / (cosh,sinh) = (1,0)
+            tk = (kind, z3.simplify(t).sexpr())
+            if tk not in self.zero_facts:
+                self.zero_facts.add(tk)
+                self.eng.assume(z3.Implies(t == 0, z3.And(res[0] == 1, res[1] == 0)))
         return res
 
     def _const_trig(self, const):
